@@ -87,6 +87,18 @@ func (c *Ctx) ruleR01b(rule string) {
 					continue
 				}
 				if fl.Rets[retUse{r, 1}] || fl.Vals[r.Results[1]] {
+					// may-flow holds; in the function containing the call it must hold on every path from the call
+					if where == fn {
+						src := map[ssa.Value]bool{}
+						for _, e := range cps {
+							src[e] = true
+						}
+						if !mustDepend(r.Results[1], src, cl.Block(), isUnionCall) {
+							bad++
+							c.R.Violation(rule, fmt.Sprintf("%s conditionally drops curtailing set", c.name(where)), c.name(where), c.P.InstrPos(r),
+								fmt.Sprintf("on some path from the parser call at %s to the return at %s the returned curtailing set does not include the call's curtailing set (it is merged only conditionally)", c.P.InstrPos(cl), c.P.InstrPos(r)))
+						}
+					}
 					continue
 				}
 				// tabled exemptions
@@ -98,8 +110,29 @@ func (c *Ctx) ruleR01b(rule string) {
 				c.R.Violation(rule, fmt.Sprintf("%s drops curtailing set of call in %s", c.name(where), c.name(fn)), c.name(where), c.P.InstrPos(r),
 					fmt.Sprintf("the return at %s yields a curtailing set that does not depend on the curtailing set of the parser call at %s: a Memoize above stores this result as valid for more contexts than it is, and reuses it where deeper recursion was allowed (derivations are lost)", c.P.InstrPos(r), c.P.InstrPos(cl)))
 			}
+			// accumulation through a struct field: the store may be guarded by merge flags (bool parameters, whose
+			// discipline R01c decides) and by nothing else
+			for _, st := range fl.Stores {
+				if st.Block().Parent() != fn {
+					continue
+				}
+				for _, cd := range ssax.DominatingConds(st.Block()) {
+					if cd.At.Dominates(cl.Block()) && cd.At != cl.Block() {
+						continue // the condition also governs the call itself
+					}
+					if _, isParam := cd.Val.(*ssa.Parameter); isParam {
+						continue
+					}
+					if ci, isI := cd.Val.(ssa.Instruction); isI && ci.Block() == cl.Block() && ssax.Before(ci, cl) {
+						continue
+					}
+					bad++
+					c.R.Violation(rule, fmt.Sprintf("%s merges curtailing set under a foreign condition", c.name(fn)), c.name(fn), c.P.InstrPos(st),
+						fmt.Sprintf("the curtailing set of the parser call at %s is merged into the accumulator only under the condition %s, which is not a merge flag parameter: curtailing parsers of some sub-results are dropped, so cached results claim a smaller context than they depend on", c.P.InstrPos(cl), cd.Val.String()))
+				}
+			}
 			if bad == 0 {
-				c.R.Hold(rule, site, fmt.Sprintf("reaches result[1] of %d return(s) of %s", len(targets), c.name(where)))
+				c.R.Hold(rule, site, fmt.Sprintf("reaches result[1] of %d return(s) of %s on every path", len(targets), c.name(where)))
 			}
 		}
 	}
